@@ -124,7 +124,8 @@ Record txctx := mkTx {
   tx_signers : list Z;          (* accounts whose signatures were verified; contains the fee payer *)
   tx_fee_ok : bool;             (* a settlement transaction offers the fixed fee in a configured denomination (C16) *)
   tx_grant_ok : bool            (* no fee granter is named, or it is the payer itself, or its allowance for the payer
-                                   covers the fee that is charged (x/feegrant UseGrantedFees) *)
+                                   covers the fee that is charged (x/feegrant UseGrantedFees); always true of an oracle
+                                   transaction, which skips the fee decorator *)
 }.
 
 Definition settlus_admits (o : ostate) (tx : txctx) : bool :=
